@@ -141,7 +141,7 @@ def gen(tier: str, seed: int) -> list[Case]:
     gated = gated_features()
     osets = option_sets()
     cases = []
-    n_pk = 24 if tier == "quick" else 400
+    n_pk = 24 if tier == "quick" else 300
     per = 3 if tier == "quick" else 8
     oi = seed % 64
     for i in range(n_pk):
